@@ -1,6 +1,7 @@
 (* C20 — property theorems only (see design_notes/C20.md for what is and is not covered). *)
 From SwayV Require Import Base.Util C21.Str C21.Model C20.Model C20.Spec C20.StrLemmas C20.SrcProofs
-     C20.LineProofs C20.ListLemmas C20.GraphProofs C21.Judge C20.Judge C20.JudgeProofs C20.Refute.
+     C20.LineProofs C20.ListLemmas C20.GraphProofs C20.Order C20.SetModel C20.SetProofs
+     C21.Judge C20.Judge C20.JudgeProofs C20.Refute.
 From Coq Require Import Permutation.
 
 (* Display then FromStr of a pinned source is the identity, for each of the five kinds, under the
@@ -54,6 +55,35 @@ Theorem C20_lock_roundtrip :
 Proof. exact lock_roundtrip. Qed.
 Print Assumptions C20_lock_roundtrip.
 
+(* With the `version` field and the BTreeSet order modelled (C20/SetModel.v: #[derive(Ord)] on PkgLock,
+   semver's Ord an arbitrary total order consistent with equality): what Lock::from_graph writes
+   does not depend on how the graph's nodes are numbered nor on the order of its edge list. *)
+Theorem C20_written_set_independent_of_numbering :
+  forall (url cid ver : Type) (show_url : url -> str) (show_cid : cid -> str) (show_ver : ver -> str)
+         (ver_cmp : ver -> ver -> comparison),
+    ord_ok ver_cmp ->
+    forall (g g' : graph url cid ver) (sigma : list nat),
+      renumbering url cid ver sigma g g' ->
+      (forall e, In e (g_edges g) -> ge_from e < length (g_nodes g) /\ ge_to e < length (g_nodes g)) ->
+      from_graph_set url cid ver show_url show_cid show_ver ver_cmp g'
+      = from_graph_set url cid ver show_url show_cid show_ver ver_cmp g.
+Proof. exact set_renumber_invariant. Qed.
+Print Assumptions C20_written_set_independent_of_numbering.
+
+(* and the round trip holds for exactly that written set (sorted, deduplicated, with versions) *)
+Theorem C20_lock_roundtrip_written_set :
+  forall (url cid ver : Type) (show_url : url -> str) (show_cid : cid -> str) (show_ver : ver -> str)
+         (parse_url : str -> option url) (parse_cid : str -> option cid) (parse_ver : str -> option ver)
+         (ver_cmp : ver -> ver -> comparison),
+    ord_ok ver_cmp ->
+    forall g : graph url cid ver,
+      wf_graph url cid ver show_url show_cid show_ver parse_url parse_cid parse_ver g ->
+      exists g', to_graph parse_url parse_cid parse_ver
+                          (map (pf_lock ver) (from_graph_set url cid ver show_url show_cid show_ver ver_cmp g)) = Ok g'
+                 /\ graph_equiv url cid ver g' g.
+Proof. exact roundtrip_sorted. Qed.
+Print Assumptions C20_lock_roundtrip_written_set.
+
 (* The deciders evaluated by the judge (C20/Judge.v; external values = their Display strings,
    parsers = the measured verdict table t) are sound for the Props of Spec.v: *)
 Theorem C20_graph_equivb_sound :
@@ -101,6 +131,16 @@ Example C20_example_roundtrip_computed :
   exists g', to_graph acc acc acc (rev (from_graph_list str str str idf idf idf ex_graph)) = Ok g'
              /\ length (g_nodes g') = 4 /\ length (g_edges g') = 3.
 Proof. eexists. vm_compute. repeat split; reflexivity. Qed.
+
+(* the written set of ex_graph is ordered by name, then version (None first), then source:
+   app, std (git+...), std (path+...), tk with version Some "1" *)
+Example C20_example_written_set_order :
+  map (fun p => (pl_name (pf_lock str p), pf_version str p))
+      (from_graph_set str str str idf idf idf str_cmp ex_graph)
+  = [([97;112;112]%N, None); ([115;116;100]%N, None); ([115;116;100]%N, None); ([116;107]%N, Some [49]%N)]
+  /\ map (fun p => hd 0%N (skipn 0 (pl_source (pf_lock str p)))) (from_graph_set str str str idf idf idf str_cmp ex_graph)
+     = [109; 103; 112; 114]%N.
+Proof. vm_compute. split; reflexivity. Qed.
 
 (* Non-vacuity: a git source on a branch, a registry source with a namespace, a renamed
    contract dependency with a non-zero salt on a disambiguated package. *)
